@@ -27,6 +27,13 @@ def raw_entries(draw, style, is_int):
     n = draw(st.integers(0, 5))
     ents = []
     wellformed = draw(st.integers(0, 3)) > 0
+    if is_int and draw(st.integers(0, 7)) == 0:
+        # two intervals that overlap by one unit in the last place (0.1+0.2 style arithmetic)
+        import math
+
+        a, b, c = sorted(draw(st.lists(lat, min_size=3, max_size=3, unique=True)))
+        ents = [[a, math.nextafter(b, math.inf), draw(lab)], [b, c, draw(lab)]]
+        return ents, "float"
     if is_int:
         if wellformed:
             bs = sorted(draw(st.lists(lat, min_size=n + 1, max_size=n + 1, unique=True)))
@@ -75,8 +82,8 @@ def op_strategy(draw, style):
         op.update(offset=draw(st.one_of(lat, lat.map(lambda t: -t))), mode=draw(st.sampled_from(["silence", "warning", "error"])))
     elif kind == "insert_entry":
         op.update(a=draw(lat), b=draw(lat), label=draw(st.sampled_from(["n", " n ", "", "m\n", "x"])),
-                  mode=draw(st.sampled_from(["error", "replace", "merge", "merge"])),
-                  report=draw(st.sampled_from(["silence", "warning"])),
+                  mode=draw(st.sampled_from(["error", "replace", "merge", "merge", "replace", "bogus"])),
+                  report=draw(st.sampled_from(["silence", "warning", "silence", "warning", "bogus"])),
                   form=draw(st.sampled_from(["obj", "tuple", "list"])))
     elif kind == "delete_entry":
         op.update(sel=draw(st.integers(0, 7)), absent=draw(st.integers(0, 5)) == 0)
